@@ -39,4 +39,13 @@ def generic_replay(payload):
 
 
 if __name__ == "__main__":
-    sys.exit(main())
+    try:
+        rc = main()
+    except SystemExit:
+        raise
+    except BaseException as ex:            # an unexpected failure of the machinery is never a verdict about the code
+        import traceback
+        traceback.print_exc()
+        print("HARNESS-ERROR property=%s unexpected %s in the check itself: %s" % (sys.argv[1] if len(sys.argv) > 1 else "?", type(ex).__name__, str(ex)[:300]))
+        rc = EXIT_HARNESS
+    sys.exit(rc)
